@@ -32,7 +32,7 @@ inductive Err where
   | size (line len : Nat)         -- TleParseError("Invalid TLE size on line …")
   | checksum (line : Nat)         -- TleParseError("TLE checksum validation failed on line …")
   | valueError                    -- ValueError raised by int() / float()
-  | indexError                    -- IndexError (text[0] of an empty field in _float)
+  | indexError                    -- IndexError (no longer raised by the modelled code: `_float` refuses an empty field with ValueError since 3f7f532)
   | outOfModel                    -- the model does not describe this input (never compared)
 deriving Repr, DecidableEq
 
@@ -186,7 +186,7 @@ def tleFloatSigned (text : Str) : Except Err Dec :=
 /-- `_float(text)`: "decimal point assumed" fields -/
 def tleFloat (text : Str) : Except Err Dec :=
   match strip text with
-  | [] => .error .indexError
+  | [] => .error .valueError      -- `if not text: raise ValueError(...)` (3f7f532)
   | c0 :: tl => tleFloatSigned (if c0 = '-' || c0 = '+' then c0 :: '.' :: tl else '+' :: '.' :: c0 :: tl)
 
 /-! ## `Tle.__init__` -/
